@@ -206,6 +206,15 @@ def checkAndComplete (w : World) : World :=
   else if w.tasks.all (fun t => t.state != .ERROR || t.errorHandled) then { w with wf := .SUCCESS }
   else { w with wf := .ERROR }
 
+/-- the task has an action execution that has not completed: the action is registered for an
+    executor, at an executor, or its result is on its way -/
+def hasLiveAction (w : World) (t : Tid) : Bool :=
+  w.pending.any fun i => match i with
+    | .postRunAction t' => t' == t
+    | .runAction t' => t' == t
+    | .rpcResult t' _ => t' == t
+    | _ => false
+
 /-- `_check_affected_tasks(task)`: for a completed task of a workflow that is not completed,
     register a refresh (if needed) of every existing join it can indirectly affect -/
 def checkAffected (sp : Spec) (w : World) (t : Tid) : World :=
@@ -296,6 +305,8 @@ def step (sp : Spec) (w : World) : Event → World
           -- RunExistingTask: _run_existing refuses a succeeded task with a MistralError
           -- (not a MistralException: it escapes run_task and the transaction rolls back)
           if r.state == .SUCCESS then w
+          -- … and ignores the request if the task is already running its action
+          else if r.state == .RUNNING && hasLiveAction w t then w
           else { w with tasks := setTask w.tasks { r with state := .RUNNING, processed := false },
                         pending := w.pending ++ [.postRunAction t] }
     | .rpcResult t ok =>
@@ -320,6 +331,10 @@ def step (sp : Spec) (w : World) : Event → World
               let r := { r with trig := trig }
               let w := { w with tasks := setTask w.tasks r }
               if L.state == .RUNNING then
+                -- continue_task: RUNNING, then _run_existing (which does not start a second
+                -- action while one is still in progress)
+                if hasLiveAction w t then { w with tasks := setTask w.tasks { r with state := .RUNNING } }
+                else
                 { w with tasks := setTask w.tasks { r with state := .RUNNING },
                          pending := w.pending ++ [.postRunAction t] }
               else if L.state == .ERROR then completeTask sp w r .ERROR
